@@ -1137,3 +1137,101 @@ func OnlyThroughPassRet(fn *ssa.Function, ret *ssa.Return, guards []Guard) bool 
 	}
 	return OnlyThroughPass(fn, ret.Block(), guards)
 }
+
+// CellValue looks through a load of a local cell (a named result or a variable spilled to the heap
+// because a closure captures it — what `defer func(){ recover() … }()` does to every `err`) to the
+// value the reaching store put there: the last store before the load in its own block, else the
+// nearest store in a dominating block, provided no other store to the cell lies on a path between
+// the two. Anything else is returned unchanged.
+func CellValue(v ssa.Value) ssa.Value {
+	for depth := 0; depth < 6; depth++ {
+		v = Unwrap(v)
+		u, ok := v.(*ssa.UnOp)
+		if !ok || u.Op != token.MUL {
+			return v
+		}
+		a, ok := u.X.(*ssa.Alloc)
+		if !ok {
+			return v
+		}
+		st := reachingStore(a, u)
+		if st == nil {
+			return v
+		}
+		v = st.Val
+	}
+	return v
+}
+
+func reachingStore(a *ssa.Alloc, load *ssa.UnOp) *ssa.Store {
+	lb := load.Block()
+	li := InstrIndex(load)
+	// same block, before the load
+	for i := li - 1; i >= 0; i-- {
+		if s, ok := lb.Instrs[i].(*ssa.Store); ok && s.Addr == ssa.Value(a) {
+			return s
+		}
+		if c, ok := lb.Instrs[i].(ssa.CallInstruction); ok && cellEscapesTo(a, c) {
+			return nil
+		}
+	}
+	stores := StoresTo(a)
+	var best *ssa.Store
+	for d := lb.Idom(); d != nil && best == nil; d = d.Idom() {
+		for i := len(d.Instrs) - 1; i >= 0; i-- {
+			if s, ok := d.Instrs[i].(*ssa.Store); ok && s.Addr == ssa.Value(a) {
+				best = s
+				break
+			}
+		}
+	}
+	if best == nil {
+		return nil
+	}
+	fromBest := ReachAvoiding(lb.Parent(), best.Block(), nil, nil)
+	loadInLoop := false
+	for _, s := range lb.Succs {
+		if ReachAvoiding(lb.Parent(), s, nil, nil)[lb] {
+			loadInLoop = true
+		}
+	}
+	for _, s := range stores {
+		if s == best {
+			continue
+		}
+		sb := s.Block()
+		if sb == best.Block() {
+			if InstrIndex(s) > InstrIndex(best) {
+				return nil
+			}
+			continue
+		}
+		if sb == lb {
+			if InstrIndex(s) < li || loadInLoop {
+				return nil
+			}
+			continue
+		}
+		if fromBest[sb] && ReachAvoiding(lb.Parent(), sb, nil, nil)[lb] {
+			return nil
+		}
+	}
+	return best
+}
+
+// cellEscapesTo: the call may write the cell (it receives its address, or is a closure that binds it).
+func cellEscapesTo(a *ssa.Alloc, c ssa.CallInstruction) bool {
+	for _, arg := range c.Common().Args {
+		if arg == ssa.Value(a) {
+			return true
+		}
+	}
+	if mc, ok := c.Common().Value.(*ssa.MakeClosure); ok {
+		for _, b := range mc.Bindings {
+			if b == ssa.Value(a) {
+				return true
+			}
+		}
+	}
+	return false
+}
